@@ -45,6 +45,11 @@ def gen_play(rng, fail_at=None, tolerated=False, nacts=None, repeat=None, long_a
                 cols.append(rng.pick(chars))
         if all(c == "." for c in cols):
             cols[0] = chars[0]
+        if acts and rng.chance(1, 3):
+            # an act that begins with as many empty columns as the previous act has columns: its first group is due
+            # at the very offset the previous act ended at
+            prev = acts[-1]
+            cols = ["."] * (len(prev) - 2 * prev.count("+")) + [c for c in cols if c != "."][:2]
         acts.append("".join(cols))
     # failure injection: the n-th action name in script order fails
     marks = {}
